@@ -41,7 +41,7 @@ def property_difference(step, diff, prev):
             return "AlreadyHaveTx(W) is true while the genuine transaction is wanted"
         if key == "state.rejT" and obs == "yes" and exp["rejT"] == "no":
             return "the txid T is in the reject filter while the genuine transaction is wanted"
-        if key in ("state.rej", "state.recon", "state.conf"):
+        if key in ("state.rej", "state.recon", "state.conf") and exp["rejT"] != "na":      # ("na": G is in the pool or confirmed)
             extra = set(obs) - set(exp[key[6:]])
             if extra & {"W", "T"}:
                 return "%s holds %s although the model's does not" % (key[6:], sorted(extra & {"W", "T"}))
@@ -54,8 +54,10 @@ def property_difference(step, diff, prev):
             return "no peer is left to ask for W"
         if key == "result.ask" and "W" in r["ask"] and "W" not in obs:
             return "W is not requested from the peer the tracker should ask"
-        if key in ("result.validated", "result.verdict") and a[0] == "tx" and a[2] == "G" and r["validated"] and r["verdict"] == "ok":
-            return "the genuine transaction was not validated and accepted (%s = %s)" % (key, obs)
+        if key == "result.validated" and a[0] == "tx" and a[2] == "G" and r["validated"] and obs is False:
+            return "the genuine transaction was ignored as already known (not validated, not kept as an orphan)"
+        if key == "result.verdict" and a[0] == "tx" and a[2] == "G" and r["verdict"] == "ok":
+            return "the genuine transaction was not accepted (verdict %s)" % obs
         if key == "result.dropped" and a[0] == "inv" and a[2] == "W" and r["dropped"] is False and obs is True:
             return "the announcement of W was dropped as already known"
     return None
@@ -151,7 +153,7 @@ def run(ctx):
         if len(beh) < num // 2:
             raise vflib.InfraError("%s: only %d behaviours" % (cfg, len(beh)))
         # the fans repeat the prefix of their behaviour: keep the behaviours and a seeded share of the fans
-        keep = [t for i, t in enumerate(fans) if (i * 2654435761 + ctx.seed) % (10 if quick else 2) == 0]
+        keep = [t for i, t in enumerate(fans) if (i * 2654435761 + ctx.seed) % (10 if quick else 12) == 0]
         tests = beh + keep
         for t in tests:
             per_action[t["steps"][-1]["a"][0]] += 1
